@@ -44,6 +44,7 @@ type Ident struct {
 	CanRead   bool     `json:"cr"`
 	CanWrite  bool     `json:"cw"`
 	ExpiresAt []byte   `json:"exp"`
+	Exp       int64    `json:"exp_unix,omitempty"` // the token's exp when its text form cannot be parsed back (years above 9999)
 	UserAgent []byte   `json:"ua"`
 	Addr      []byte   `json:"addr"`
 }
@@ -69,6 +70,7 @@ type Case struct {
 	Obs     []Ident `json:"obs,omitempty"`
 	Times   []int64 `json:"times,omitempty"`   // rate: arrival times of reports (ms)
 	PerMsg  []int   `json:"per_msg,omitempty"` // rate: JSON values per websocket message
+	Never   []bool  `json:"never,omitempty"`   // traffic: reported never flags (sender tx, receiver rx) after D messages
 	Source  string  `json:"source,omitempty"`  // hist: stats-topic | status-endpoint
 	Note    string  `json:"note,omitempty"`
 }
